@@ -77,6 +77,30 @@ def gen_pair(rng):
     return sc
 
 
+def enrich(rng, sc):
+    """a solver-family scenario (chains, locks, controls, schedules) whose gears also carry the optional structural data, so that
+    forces and stresses are advertised and sampled along whatever the scenario does (held at the first instant, stopped, reset ...)"""
+    els = sc['elems']
+    for i, e in enumerate(els):
+        o = e.setdefault('opt', {})
+        k = e['kind']
+        if k in ('spur', 'helical') and 'module' not in o and rng.random() < 0.8:
+            # a module must agree across a gear mating: give it to this gear only if no gear-mated neighbour has another one
+            near = [els[j] for j in (i - 1, i + 1) if 0 <= j < len(els) and (els[max(i, j)].get('link') == 'gear')]
+            mods = {tuple(n_['opt']['module']) for n_ in near if 'module' in n_.get('opt', {})}
+            if len(mods) <= 1:
+                o['module'] = list(mods.pop()) if mods else ['Length', 1.0, 'mm']
+        if k == 'wheel' and 'module' not in o and rng.random() < 0.8:
+            o['module'] = ['Length', 2.0, 'mm']
+        if k in ('spur', 'helical', 'wheel') and 'face_width' not in o and rng.random() < 0.8:
+            o['face_width'] = ['Length', 10.0, 'mm']
+        if k in ('spur', 'helical') and 'elastic_modulus' not in o and rng.random() < 0.8:
+            o['elastic_modulus'] = ['Stress', 200.0, 'GPa']
+        if k == 'worm' and 'reference_diameter' not in o and rng.random() < 0.8:
+            o['reference_diameter'] = ['Length', 20.0, 'mm']
+    return sc
+
+
 def fix_opt(sc):
     """scenario 'opt' dicts hold [kind, value, unit] triples; scen.build wants gearpy quantities"""
     sc2 = json.loads(json.dumps(sc))
@@ -249,7 +273,7 @@ def search(pid, tier, seed, escalate, hints):
                  ['run', ['TimeInterval', 1.0, 'ms'], ['TimeInterval', 2.0, 'ms'], None, None]],
             ])
         else:
-            sc = scen.gen_scenario(rng, rng.choice(['plain', 'stop', 'schedule', 'control', 'lock']))
+            sc = enrich(rng, scen.gen_scenario(rng, rng.choice(['plain', 'stop', 'schedule', 'control', 'lock', 'lock'])))
         k += 1
         try:
             pt, els = scen.build(fix_opt(sc))
